@@ -707,7 +707,7 @@ Proof.
   induction 1 as [|l1 x y l2 l' Hi _ IH]; [apply ro_refl|].
   change (reorder ((z :: l1) ++ x :: y :: l2) (z :: l')). apply ro_swap; [assumption|exact IH].
 Qed.
-Lemma bubble z b a : (forall u, In u a -> indep_res u z) -> reorder (a ++ z :: b) (z :: a ++ b).
+Lemma bubble_front z b a : (forall u, In u a -> indep_res u z) -> reorder (a ++ z :: b) (z :: a ++ b).
 Proof.
   induction a as [|u a' IH]; intros H; [apply ro_refl|].
   eapply reorder_trans.
@@ -741,7 +741,7 @@ Proof.
     apply in_split in Hz. destruct Hz as [a [b ->]].
     assert (Hp' : Permutation (a ++ b) t) by (apply Permutation_sym; eapply Permutation_cons_app_inv; apply Permutation_sym; eassumption).
     eapply reorder_trans.
-    + apply bubble. intros u Hu. apply Hinv; [apply before_mid; assumption|].
+    + apply bubble_front. intros u Hu. apply Hinv; [apply before_mid; assumption|].
       apply bf_here. eapply Permutation_in; [eassumption|]. apply in_or_app. left. assumption.
     + apply reorder_cons. apply IH; [assumption|].
       intros x y Hb1 Hb2. apply Hinv; [apply before_insert; assumption|apply bf_skip; assumption].
